@@ -326,7 +326,7 @@ impl<'a> MetricFormatter<'a> {
 
     //@FN cadence/src/builder.rs :: impl<'a> MetricFormatter<'a> :: format :: vis=
         requires self.mem_ok(),
-        ensures r@ == self.line(),   // [C01 C04] the text is exactly name:values|type[|@rate][|#tags][|c:container][|Ttimestamp], sections in that order, each exactly when supplied
+        ensures r@ == self.line(),   // [C01 C04?] the text is exactly name:values|type[|@rate][|#tags][|c:container][|Ttimestamp], sections in that order, each exactly when supplied
     //@END
 }
 
